@@ -126,6 +126,11 @@ def gen_pil(rng, max_prot=8, max_pep=14):
 
 
 class PipelineSuite(Suite):
+    has_py_property = True
+
+    def py_property(self, case, out):
+        return pipeline_property_violation(case, out)
+
     name = "get_protein_group_results"
     imports = ("From PGF Require Import Base.Prelude Model.Fdr Model.Results Model.ProteinGroups Model.Grouping Model.Scoring "
                "Model.Competition Model.Rescue Model.Pipeline Harness.H01 Harness.H04 Harness.H05 Harness.H07.")
